@@ -45,12 +45,14 @@ func (p *Program) describe() map[string]interface{} {
 }
 
 type runOut struct {
-	out     string
-	err     error
-	calls   []model.Call
-	pan     interface{}
-	endBad  string
-	exSteps int64
+	out      string
+	err      error
+	calls    []model.Call
+	pan      interface{}
+	endBad   string
+	destBad  string
+	destSeen int
+	exSteps  int64
 }
 
 // poisonSrc are templates that fail half-way through a capturing construct, a block, an include or at
@@ -134,9 +136,12 @@ func runLibTo(p *Program, pol gen.Policy, twigEnv bool, dest io.Writer) (o runOu
 		if dest != nil {
 			o.err = env.Execute(p.Main, dest, ctx)
 		} else {
+			rec.Dest = &buf
 			o.err = env.Execute(p.Main, &buf, ctx)
+			rec.Snap("the end")
 		}
 	}()
+	o.destBad, o.destSeen = rec.DestBad, rec.DestSeen
 	_, _, o.exSteps = mon.EndCall()
 	o.endBad = mon.TakeExecEndBad()
 	o.out = buf.String()
@@ -213,6 +218,9 @@ func compareRuns(res *fw.Result, key string, p *Program, lib, mod runOut, checkC
 	if lib.pan != nil {
 		fail("panic", fmt.Sprintf("Execute panicked: %v", lib.pan))
 		return false
+	}
+	if lib.destBad != "" {
+		fail("capture-reached-destination", lib.destBad)
 	}
 	if lib.endBad != "" {
 		fail("exec-end-invariant", lib.endBad)
@@ -321,6 +329,7 @@ func modelCase(res *fw.Result, key string, prog *Program, pol gen.Policy, checkC
 	res.AddObs("model_steps", int64(steps))
 	res.AddObs("callbacks_observed", int64(len(lib.calls)))
 	res.AddObs("output_bytes", int64(len(lib.out)))
+	res.AddObs("destination_snapshots", int64(lib.destSeen))
 	if lib.err != nil {
 		res.AddClass("error")
 	} else {
